@@ -126,7 +126,8 @@ STRUCT_SMALL = ["g222", "border", "dups", "sparse", "colx", "coldiag", "g322"]  
 
 QV_LITE = [-3.0, -0.5, 0.0, 0.5, 1.0, 1.5, 2.0, 2.5, 5.0]
 EXTRA_Q = [[1e6, 0, 0], [-1e6, 1, 1], [0.5, 1e9, 0], [-1024.5, -1024.5, -1024.5],
-           [float("nan"), 0, 0], [0, float("inf"), 0], [float("-inf")] * 3]
+           [float("nan"), 0, 0], [0, float("inf"), 0], [float("-inf")] * 3,
+           [float("nan"), float("inf"), float("-inf")], [1e6, float("nan"), -1e6]]      # two features in one point
 
 
 def _perm(n, mult):
@@ -286,6 +287,21 @@ def flavour_array(x, form):
         return a
     if form in ("i64", "i32"):
         return np.rint(x).astype(np.int64 if form == "i64" else np.int32)
+    if form == "f32ro_strided":          # two features: read-only AND non-contiguous
+        big = np.full((2 * len(x),) + x.shape[1:], 77.0, dtype=np.float32)
+        big[::2] = x
+        big.flags.writeable = False
+        return big[::2]
+    if form == "f64F_ro":                # float64 AND Fortran order AND read-only
+        a = np.asfortranarray(x.astype(np.float64))
+        a.flags.writeable = False
+        return a
+    if form == "f32T_ro":
+        a = np.ascontiguousarray(x.astype(np.float32).T)
+        a.flags.writeable = False
+        return a.T
+    if form == "i32F":
+        return np.asfortranarray(np.rint(x).astype(np.int32))
     if form == "list":
         return x.tolist()
     if form == "tuple":
@@ -892,6 +908,9 @@ def shards(tier, seed):
     out.append({"kind": "reuse", "off": off})
     out.append({"kind": "alias", "off": off})
     out.append({"kind": "flavour", "off": 0})
+    out.append({"kind": "flavour_pairs", "off": 0})
+    out.append({"kind": "derived", "off": 0})
+    out.append({"kind": "derived", "off": off})
     out.append({"kind": "orient", "what": "order", "off": off})
     out.append({"kind": "orient", "what": "boxrows", "off": off})
     for r in (range(24) if tier == "thorough" else [(5 * seed + k) % 24 for k in (1, 10, 19)]):
@@ -899,7 +918,7 @@ def shards(tier, seed):
     out.append({"kind": "edge", "off": off})
     # heavy shards first
     weight = {"st": 0, "pst": 0, "ms": 1, "pms": 1, "sel": 2, "assign": 3, "misc": 3, "cap": 0, "reuse": 2, "alias": 2,
-              "flavour": 2, "orient": 2, "edge": 3}
+              "flavour": 2, "orient": 2, "edge": 3, "flavour_pairs": 2, "derived": 2}
     out.sort(key=lambda s: weight[s["kind"]])
     return out
 
@@ -1321,7 +1340,7 @@ def run_alias_cfg(ctx, cfg):
     cl, coords, msel, box = build_celllist(cfg, keep)
     before = {k: _snap(v) for k, v in keep.items()}
     orc = Oracle(cfg, coords, msel, box)
-    q = query_points(cfg, "mini")[7:47].copy()
+    q = query_points(cfg, "mini")[5:45].copy()       # 4 non-finite rows + lattice points
     q32 = q.astype(np.float32)
     rad = np.array([0.5, 1.0, 2.5, 5.0] * 10)
     rad32 = rad.astype(np.float32)
@@ -1338,7 +1357,7 @@ def run_alias_cfg(ctx, cfg):
     # 1. arguments untouched
     changed = [k for k, v in keep.items() if _snap(v) != before[k]]
     changed += [nm for nm, x, c in zip(("query_f64", "query_f32", "radii_f64", "radii_f32", "cell_radii"),
-                                       (q, q32, rad, rad32, crad), snaps) if not np.array_equal(x, c)]
+                                       (q, q32, rad, rad32, crad), snaps) if not np.array_equal(x, c, equal_nan=True)]
     if changed:
         ctx.violation("CellList|argument_modified|%s" % changed[0],
                       "a constructor / query argument was modified", {"kind": "alias", "cfg": cfg},
@@ -1469,6 +1488,165 @@ def run_flavour(shard, ctx):
                 run_op(ctx, cfg, cl, orc, op)
 
 
+TWO_FEATURE = ["f32ro_strided", "f64F_ro", "f32T_ro", "i32F"]
+PAIR_COORD = ["f32F", "f32strided", "f32ro", "f64ro", "i64", "f32ro_strided", "f64F_ro"]
+PAIR_QUERY = ["f32F", "f32strided", "f32ro", "f64ro", "f32T", "f32ro_strided", "f64F_ro", "f32T_ro"]
+
+
+def run_flavour_pairs(shard, ctx):
+    """C - two awkward features at once: (a) in one array (read-only + strided, float64 + Fortran + read-only, transposed +
+    read-only, int32 + Fortran) for coordinates, queries, boxes; (b) in two arguments of one call: every listed coordinate
+    flavour x every listed query flavour x {selection flavour, radius array flavour}, non-periodic and periodic"""
+    for name, bname in (("g222", None), ("g333", "o3"), ("g222", "t1")):
+        for cform in PAIR_COORD + ["i32F", "f32T_ro"]:
+            for sel in (None, ["flav", "ro"], ["flav", "col"]):
+                cfg = {"set": ["st", name], "cs": 1.0, "off": 0, "form": cform}
+                if bname:
+                    cfg["box"] = bname
+                    cfg["boxflav"] = ("f64F_ro", "f32ro_strided", "i32F")[len(cform) % 3] if cform != "f32F" else None
+                    if cfg["boxflav"] is None:
+                        del cfg["boxflav"]
+                if sel:
+                    cfg["sel"] = sel
+                tag = cfg_tag(cfg)
+                if not ctx.journal(tag + "#build"):
+                    continue
+                ctx.ev(1, 1)
+                try:
+                    cl, coords, msel, box = build_celllist(cfg)
+                except Exception as e:  # noqa: BLE001
+                    ctx.violation("CellList|raises_%s|two_flavours" % type(e).__name__,
+                                  "legal array flavours raised %s: %s" % (type(e).__name__, str(e)[:200]),
+                                  {"kind": "build", "cfg": cfg}, expected="cell list", observed=type(e).__name__)
+                    continue
+                orc = Oracle(cfg, coords, msel, box)
+                for qi, qf in enumerate(PAIR_QUERY):
+                    rf = ("strided", "ro", "ro32", "i32")[qi % 4]
+                    for base in ({"m": "get", "r": ["cyc", [0.0, 1.0, 2.0, 5.0], qi], "rflav": rf if rf != "i32" else "f32"},
+                                 {"m": "cells", "r": ["cyc", [0, 2, 1], qi], "rflav": rf if rf in ("strided", "ro", "i32") else "ro32",
+                                  "mask": True},
+                                 {"m": "get", "r": 1.0, "single": True, "short": True}):
+                        op = dict(base, q="mini", rows=list(range(4, 10)) if base.get("short") else list(range(4, 44)), qflav=qf)
+                        op.pop("short", None)
+                        ctx.journal(tag + "#flav")
+                        run_op(ctx, cfg, cl, orc, op)
+
+
+def run_derived(shard, ctx):
+    """E - derived inputs: coordinates, selections, query points, radii and boxes as the library itself hands them out
+    (sliced / masked / fancy-indexed AtomArrays, models of a stack, coordinate views, outputs of the box helpers and
+    transformations, masks and index rows returned by a CellList, distances as radii); every answer against brute force
+    computed from the VALUES of the derived objects"""
+    import biotite.structure as struc
+
+    g = STRUCT["g333h"] * 2.0 + np.array(OFFSETS[shard["off"]])          # 27 atoms, spacing 1.0 / exact in float32
+    arr = struc.AtomArray(len(g))
+    arr.coord = g
+    arr.res_id[:] = np.arange(len(g)) // 4
+    stk = struc.stack([arr, arr, arr])
+    stk.coord[1] = (g[::-1] + 0.5)
+    stk.coord[2] = g * 0.5
+    box_uc = struc.vectors_from_unitcell(4.0, 4.0, 4.0, math.pi / 2, math.pi / 2, math.pi / 2)       # float32, exact
+    stk.box = np.stack([box_uc, box_uc * 2, box_uc * 0.5])
+    arr.box = box_uc
+    mask = np.array([i % 3 != 1 for i in range(len(g))])
+    base_cl = struc.CellList(arr, 1.0)
+    near = base_cl.get_atoms(arr.coord[13], 1.5)                       # index array handed out by a cell list
+    near_mask = base_cl.get_atoms(arr.coord[13], 2.0, as_mask=True)    # mask handed out by a cell list
+    adj = base_cl.create_adjacency_matrix(1.0)
+    coords_src = [
+        ("arr_mask", arr[mask], None), ("arr_step2", arr[::2], None), ("arr_tail", arr[5:], None),
+        ("arr_fancy_unsorted", arr[[20, 3, 11, 7, 26, 0, 15, 9]], None), ("arr_by_celllist_indices", arr[near], None),
+        ("arr_by_celllist_mask", arr[near_mask], None), ("stack_model1", stk[1], None), ("stack_model_last", stk[-1], None),
+        ("stack_atoms_model", stk[:, 1::2][2], None), ("translated", struc.translate(arr, [1.0, -2.0, 0.5]), None),
+        ("rotated_quarter", struc.rotate(arr, [0.0, 0.0, math.pi]), 1e-4), ("coord_view_step", arr.coord[::2], None),
+        ("coord_view_model", stk.coord[1], None), ("coord_view_cols", stk.coord[:, 3][None][0], None),
+        ("coord_fancy", arr.coord[[20, 3, 11, 7, 26, 0, 15, 9]], None),
+        ("moved_inside_f64", struc.move_inside_box(g.astype(np.float64) * 3, box_uc.astype(np.float64)), None),
+        ("repeat_box_coord", struc.repeat_box_coord(arr.coord[:4], box_uc)[0], None),
+        ("removed_pbc", struc.remove_pbc_from_coord(arr.coord, box_uc), 1e-4),
+    ]
+    sel_src = [("none", None), ("celllist_mask", near_mask), ("adjacency_column", adj[:, 13]), ("adjacency_row", adj[13])]
+    box_src = [("none", None), ("unitcell_box", box_uc), ("stack_box_view", stk.box[1]), ("atomarray_box", arr.box)]
+    for cname, cobj, tol in coords_src:
+        cvals = np.asarray(cobj.coord if hasattr(cobj, "coord") else cobj, dtype=np.float64)
+        n = len(cvals)
+        for sname, sel in sel_src:
+            if sel is not None and len(sel) != n:
+                continue
+            for bname, bx in box_src:
+                for cs in (0.5, 1.5):
+                    case = {"kind": "derived", "coords": cname, "sel": sname, "box": bname, "cs": cs, "off": shard["off"]}
+                    if not ctx.journal(case):
+                        continue
+                    kw = {}
+                    if sel is not None:
+                        kw["selection"] = sel
+                    if bx is not None:
+                        kw["periodic"] = True
+                        kw["box"] = bx
+                    ctx.ev(1, 1)
+                    try:
+                        cl = struc.CellList(cobj, cs, **kw)
+                    except Exception as e:  # noqa: BLE001
+                        ctx.violation("CellList|raises_%s|derived_%s" % (type(e).__name__, cname),
+                                      "a coordinate object handed out by the library was refused: %s" % str(e)[:200], case,
+                                      expected="cell list", observed=type(e).__name__)
+                        continue
+                    msel = np.ones(n, dtype=bool) if sel is None else np.asarray(sel, dtype=bool)
+                    bx64 = None if bx is None else np.asarray(bx, dtype=np.float64)
+                    # derived queries and radii
+                    queries = [("coord_row_view", arr.coord[13]), ("coord_rows_step", arr.coord[::3]), ("model_view", stk.coord[2]),
+                               ("centroid", struc.centroid(stk)), ("own_coord", cl_coord(cobj)[: min(n, 9)])]
+                    radii_arr = struc.distance(arr.coord[0], arr.coord[1:10])           # float32 distances as radii
+                    for qname, q in queries:
+                        q64 = np.asarray(q, dtype=np.float64).reshape(-1, 3)
+                        if bx64 is None:
+                            d2 = geom.sq_dist_matrix(q64, cvals)
+                        else:
+                            inv = np.linalg.inv(bx64)
+                            red = lambda x: x - np.floor(x @ inv) @ bx64      # noqa: E731
+                            d2 = geom.sq_min_image_matrix(red(q64), red(cvals), bx64, k=2)
+                        for rname, r in (("1.0", 1.0), ("float32_scalar", radii_arr[3]), ("distance_array", None)):
+                            if rname == "distance_array":
+                                if np.ndim(q) != 2 or len(q) > len(radii_arr):
+                                    continue
+                                r = radii_arr[: len(q)]
+                                r2 = (np.asarray(r, dtype=np.float64) ** 2)[:, None]
+                            else:
+                                r2 = float(r) ** 2
+                            band = 1e-3 if (tol or bx is not None or rname != "1.0") else 0.0
+                            within = (d2 <= r2) & msel[None, :]
+                            tie = (np.abs(np.sqrt(d2) - np.sqrt(r2)) <= band) & msel[None, :] if band else np.zeros_like(within)
+                            for as_mask in (False, True):
+                                ctx.ev(len(q64), len(q64))
+                                ctx.count("accepted", len(q64))
+                                try:
+                                    res = cl.get_atoms(q, r, as_mask=as_mask)
+                                except Exception as e:  # noqa: BLE001
+                                    ctx.violation("get_atoms|raises_%s|derived_query_%s" % (type(e).__name__, qname),
+                                                  "a derived query / radius object was refused: %s" % str(e)[:200],
+                                                  dict(case, query=qname, radius=rname), expected="result",
+                                                  observed=type(e).__name__)
+                                    continue
+                                res2 = np.asarray(res)
+                                if np.ndim(q) == 1:
+                                    res2 = res2[None]
+                                bad = check_mask_array(res2, len(q64), n, within, tie) if as_mask else \
+                                    check_index_array(res2, len(q64), n, within, tie, bx is not None)
+                                if bad is not None:
+                                    ctx.violation("get_atoms|%s|derived_input" % bad[0],
+                                                  "get_atoms on derived inputs disagrees with brute force over their values",
+                                                  dict(case, query=qname, radius=rname, mask=as_mask),
+                                                  expected=np.nonzero(within[bad[1]])[0].tolist(), observed=bad[2])
+                                else:
+                                    ctx.outcome(("derived", cname, sname, bname, cs, qname, rname, as_mask, within.tobytes()))
+
+
+def cl_coord(x):
+    return np.asarray(x.coord if hasattr(x, "coord") else x)
+
+
 def run_orient(shard, ctx):
     """the answer sets do not depend on the order of the atoms, on which rows of the box carry which lattice vector,
     or on a rigid rotation of atoms + box + queries (all 24 cube rotations keep the lattice dyadic)"""
@@ -1557,7 +1735,7 @@ def run_edge(shard, ctx):
             pass
 
 
-AUDIT_RUNNERS = {"cap": run_cap, "reuse": run_reuse, "alias": run_alias, "flavour": run_flavour, "orient": run_orient,
+AUDIT_RUNNERS = {"flavour_pairs": run_flavour_pairs, "derived": run_derived, "cap": run_cap, "reuse": run_reuse, "alias": run_alias, "flavour": run_flavour, "orient": run_orient,
                  "edge": run_edge}
 
 
@@ -1573,6 +1751,8 @@ def crash_class(case):
                 return "misc|" + str(cfg["misc"])
             if cfg.get("kind") == "overflow":
                 return "overflow|" + "|".join(str(x) for x in cfg["probe"])
+            if cfg.get("kind") == "derived":
+                return "derived|%s" % cfg.get("coords")
             known = ("build", "assign", "either_build", "reuse", "alias", "alias_after_mutation", "flav", "edge")
             what = b if b in known else SITE.get(json.loads(b)["m"], "?")
             return "%s|%s" % (what, build_class(cfg))
@@ -1585,7 +1765,7 @@ def replay(case, ctx):
     if isinstance(case, str):
         a, _, b = case.partition("#")
         cfg = json.loads(a)
-        if cfg.get("kind") == "overflow":
+        if cfg.get("kind") in ("overflow", "derived"):
             case = cfg
         elif "misc" in cfg:
             case = {"kind": "misc", "what": str(cfg["misc"]).replace("edge_", ""), "off": 0}
@@ -1607,6 +1787,10 @@ def replay(case, ctx):
     if case["kind"] == "reuse":
         with np.errstate(invalid="ignore", over="ignore"):
             run_reuse_cfg(ctx, case["cfg"])
+        return
+    if case["kind"] == "derived":
+        with np.errstate(invalid="ignore", over="ignore"):
+            run_derived({"off": case.get("off", 0)}, ctx)
         return
     if case["kind"] == "alias":
         with np.errstate(invalid="ignore", over="ignore"):
